@@ -28,6 +28,7 @@ FAKE = r'''#!/bin/sh
 name="$2"
 cp "$name.ins" "$name.seen_ins" 2>/dev/null
 if [ -f "$name.lstsrc" ]; then cp "$name.lstsrc" "$name.lst"; fi
+if [ -n "$FAKE_SAY" ]; then printf '%s\n' "$FAKE_SAY"; fi
 case "$FAKE_MODE" in
   ok)         cp "$name.new" "$name.res"; echo " finished at" ; exit 0 ;;
   ok_lst)     cp "$name.new" "$name.res"; echo " R1 = 0.05" > "$name.lst"; exit 0 ;;
@@ -81,7 +82,12 @@ LST = {
 STEMS = ['m', 'm', 'comp.v2']       # a structure name with a dot in it is a legal file stem
 
 
-def run_refine(tmp, text, newtext, mode, cycles, keep=False, stem='m', lst='none', block_saves=False):
+SAYS = ['', '', ' ** CANNOT OPEN FILE m.fab **', ' ** Cannot open file M.FAB **', ' ** CANNOT OPEN FILE m.hkl **', ' ** CANNOT RESOLVE SAME **', ' ** Extinction (EXTI) or solvent water (SWAT) correction may be required **',
+        ' R1 =  0.0500 for   1234 Fo > 4sig(Fo)  and  0.0600 for all   2000 data', ' +  Copyright(C) George M. Sheldrick 1993-2018     Version 2018/3  +',
+        ' ** MERG code changed to 0 **', ' ** Bond(s) to C1 ignored **', ' wR2 = 0.1 before cycle 1 for 2000 data', ' +  m   finished at 12:00:00   Total elapsed time: 1.0 secs  +']
+
+
+def run_refine(tmp, text, newtext, mode, cycles, keep=False, stem='m', lst='none', block_saves=False, say=''):
     if not keep:
         for f in os.listdir(tmp):
             p = os.path.join(tmp, f)
@@ -106,6 +112,7 @@ def run_refine(tmp, text, newtext, mode, cycles, keep=False, stem='m', lst='none
     old_path = os.environ.get('PATH', '')
     os.environ['PATH'] = os.path.join(tmp, 'bin') + os.pathsep + old_path
     os.environ['FAKE_MODE'] = mode
+    os.environ['FAKE_SAY'] = say
     res = {'raised': None}
     shx = Shelxfile()
     try:
@@ -129,6 +136,64 @@ def run_refine(tmp, text, newtext, mode, cycles, keep=False, stem='m', lst='none
                 'saves': [open(os.path.join(tmp, 'shxsaves', f), 'rb').read().decode('utf-8', 'surrogateescape') for f in os.listdir(os.path.join(tmp, 'shxsaves'))] if os.path.isdir(os.path.join(tmp, 'shxsaves')) else [],
                 'shx': shx})
     return res
+
+
+def two_files(ctx, tmp, text, newtext, rng):
+    from shelxfile.shelx.shelx import Shelxfile
+    for f in os.listdir(tmp):
+        p = os.path.join(tmp, f)
+        if f not in ('bin',):
+            shutil.rmtree(p) if os.path.isdir(p) else os.remove(p)
+    text_b = text.replace('TITL', 'TITL second', 1)
+    new_b = newtext.replace('REM refined by the stand-in', 'REM second refined by the stand-in')
+    for stem, t, nw in (('first', text, newtext), ('second', text_b, new_b)):
+        open(os.path.join(tmp, stem + '.res'), 'wb').write(t.encode('utf-8'))
+        open(os.path.join(tmp, stem + '.hkl'), 'w').write('   0   0   0    0.00    0.00\n')
+        open(os.path.join(tmp, stem + '.new'), 'wb').write(nw.encode('utf-8'))
+    mode2 = rng.choice(['ok', 'fail_code', 'empty', 'missing'])
+    cwd = os.getcwd()
+    os.chdir(tmp)
+    old_path = os.environ.get('PATH', '')
+    os.environ['PATH'] = os.path.join(tmp, 'bin') + os.pathsep + old_path
+    os.environ['FAKE_SAY'] = ''
+    shx = Shelxfile()
+    raised = None
+    try:
+        with contextlib.redirect_stdout(io.StringIO()):
+            os.environ['FAKE_MODE'] = 'ok'
+            shx.read_file('first.res')
+            try:
+                shx.refine(2)
+            except BaseException as e:
+                raised = 'first: ' + type(e).__name__
+            os.environ['FAKE_MODE'] = mode2
+            shx.read_file('second.res')
+            try:
+                shx.refine(3)
+            except SystemExit:
+                pass
+            except BaseException as e:
+                raised = 'second: %s: %s' % (type(e).__name__, e)
+    finally:
+        os.chdir(cwd)
+        os.environ['PATH'] = old_path
+    rd = lambda n: open(os.path.join(tmp, n), 'rb').read().decode('utf-8', 'surrogateescape') if os.path.exists(os.path.join(tmp, n)) else None
+    case = {'text': text, 'mode': 'first.res ok, then second.res ' + mode2 + ' on the same object'}
+    if raised and not (mode2 != 'ok' and raised.startswith('second: SystemExit')):
+        common.add_violation(ctx, 'refining a second structure on the same object raises', case, 'no exception', raised)
+        return 1
+    if rd('second.seen_ins') is None:
+        common.add_violation(ctx, 'SHELXL was not started for the structure that was read last (no .ins was handed over for it)', case, 'second.ins handed to SHELXL',
+                             sorted(f for f in os.listdir(tmp) if f.endswith(('.ins', '.seen_ins'))))
+        return 1
+    exp_b = new_b if mode2 == 'ok' else text_b
+    if rd('second.res') != exp_b:
+        common.add_violation(ctx, 'after refining the second structure its .res is not the %s' % ('result SHELXL wrote' if mode2 == 'ok' else 'previous file, byte for byte'), case,
+                             exp_b[:80], (rd('second.res') or 'missing')[:80])
+        return 1
+    if rd('first.res') != newtext:
+        common.add_violation(ctx, 'refining the second structure changed the .res of the first one', case, newtext[:80], (rd('first.res') or 'missing')[:80])
+    return 1
 
 
 def crash_run(tmp, text, newtext, variant, stem='m'):
@@ -183,14 +248,17 @@ def run(ctx):
                 if mode == 'ok_lst':
                     lst = 'none'        # this behaviour writes its own listing
                 blocked = rng.random() < 0.2       # the history directory shxsaves cannot be created (a file of that name exists)
-                r = run_refine(tmp, text, newtext, mode, cycles, stem=stem, lst=lst, block_saves=blocked)
+                say = rng.choice(SAYS)
+                r = run_refine(tmp, text, newtext, mode, cycles, stem=stem, lst=lst, block_saves=blocked, say=say)
+                if say:
+                    hist['shelxl output line'] = hist.get('shelxl output line', 0) + 1
                 if blocked:
                     hist['shxsaves blocked'] = hist.get('shxsaves blocked', 0) + 1
                 ev += 1
                 hist[mode] = hist.get(mode, 0) + 1
                 hist['listing ' + lst] = hist.get('listing ' + lst, 0) + 1
                 hist['stem ' + stem] = hist.get('stem ' + stem, 0) + 1
-                case = {'text': text, 'mode': mode, 'cycles': cycles, 'stem': stem, 'listing': LST[lst], 'shxsaves_blocked': blocked}
+                case = {'text': text, 'mode': mode, 'cycles': cycles, 'stem': stem, 'listing': LST[lst], 'shxsaves_blocked': blocked, 'shelxl_says': say}
                 failed = mode in FAILS
                 if failed:
                     if r['res'] != text:
@@ -242,6 +310,9 @@ def run(ctx):
                 coq_cases.append((text, newtext, mode, r))
                 if k < 1 and mode in ('ok', 'missing'):
                     common.sample(ctx, {'mode': mode, 'raised': r['raised'], 'res_restored': r['res'] == text, 'ins_head': (ins or '')[:200]})
+            # one object used for two structures: the second refinement is about the second file
+            if k % 3 == 1:
+                ev += two_files(ctx, tmp, text, newtext, rng)
             # crash points: the Python process dies while SHELXL runs
             if k % 3 == 0:
                 for variant in ('del', 'trunc', 'new'):
